@@ -45,7 +45,6 @@ Proof.
     + rewrite (IH (acc + x * 2 ^ (8 * len l)) (c * 256 + x)); auto; try lia.
     + rewrite pow2_split by lia. change (2 ^ 8) with 256. nia.
     + rewrite pow2_split by lia. change (2 ^ 8) with 256. subst acc.
-      replace (c * (2 ^ (8 * len l) * 256)) with (c * (2 ^ (8 * len l) * 256)) by lia.
       apply Z_mod_mult.
 Qed.
 
@@ -154,14 +153,14 @@ Qed.
 Lemma dec_lines_wrap k : forall fuel p tail lb dlen ipos zlin lines rcomp ocnt csize pt v,
   bytes p -> 0 < len p -> Z.of_nat k = (len p + 56) / 57 -> (k <= fuel)%nat ->
   lines = zlin + Z.of_nat k -> 0 <= zlin -> lines < M64 ->
-  len pt = 76 -> 0 <= ipos -> ipos + 4 * ((len p + 2) / 3) + 2 * Z.of_nat k <= dlen ->
+  len pt = 76 -> 0 <= ipos -> ipos + 4 * ((len p + 2) / 3) + 2 * Z.of_nat k <= dlen -> dlen < M64 ->
   0 <= ocnt -> ocnt + len p <= csize -> csize < M64 ->
   dec_lines k dlen (wrap76 fuel lb (rfc4648 p) ++ tail) ipos (4 * ((len p + 2) / 3)) zlin lines
             rcomp ocnt csize pt (mkD Sa v)
   = Ok (rev rcomp ++ p, ocnt + len p).
 Proof.
   induction k as [|k IH]; intros fuel p tail lb dlen ipos zlin lines rcomp ocnt csize pt v
-    Hb Hpos Hk Hfuel Hlines Hz Hmax Hpt Hip Hdlen Hoc Hcs Hcsm.
+    Hb Hpos Hk Hfuel Hlines Hz Hmax Hpt Hip Hdlen Hdm Hoc Hcs Hcsm.
   - exfalso. lia.
   - destruct fuel as [|fuel]; [lia|].
     cbn [dec_lines wrap76]. rewrite dec_lein_eq.
@@ -232,4 +231,181 @@ Proof.
       rewrite (IH fuel rest tail lb dlen (ipos + 78) (zlin + 1) lines (rev chunk ++ rcomp) (ocnt + 57) csize pt' v');
         auto; try lia.
       rewrite rev_app_distr, rev_involutive, <- app_assoc, <- Hsplit. do 2 f_equal. lia.
+Qed.
+
+(* ---- 1. the line loop of the decoder applied to an armored payload returns the payload -------------- *)
+Lemma armor_len lb p : bytes p -> 0 < len p < M64 / 4 ->
+  len (armor lb p) = 4 * ((len p + 2) / 3) + 2 * ((len p + 56) / 57) + 1.
+Proof.
+  intros Hb Hn. destruct (armor_geometry lb p Hb Hn) as (ls & _ & _ & _ & _ & _ & _ & H & _). exact H.
+Qed.
+
+Theorem dec_lines_armor lb p : bytes p -> 0 < len p < M64 / 4 ->
+  let t := armor lb p in
+  let E := len t in
+  let lines := dec_base64_lines E in
+  dec_guard_short E lines = false /\
+  dec_lines (Z.to_nat lines) E t 0 (dec_irem E lines) 0 lines [] 0 (dec_compressed_size lines)
+            (repeat 0 76) d_init = Ok (p, len p).
+Proof.
+  intros Hb Hn t E lines. unfold lines, E, t. rewrite (armor_len lb p Hb Hn).
+  rewrite (geo_lines (len p) Hn). split; [apply geo_guard; exact Hn|].
+  rewrite (geo_irem (len p) Hn), (geo_csize (len p) Hn).
+  rewrite (armor_spec lb p Hb Hn).
+  unfold M64 in Hn. change (18446744073709551616 / 4) with 4611686018427387904 in Hn.
+  unfold d_init.
+  rewrite (dec_lines_wrap (Z.to_nat ((len p + 56) / 57)) (Z.to_nat ((len p + 56) / 57)) p [0] (u8 lb));
+    auto; unfold M64; lia.
+Qed.
+
+(* ---- the payload: info header, then the compressed bytes -------------------------------------------- *)
+Lemma rd_last w x : rd (w ++ [x]) (len (w ++ [x]) - 1) = Ok x.
+Proof.
+  rewrite len_app. change (len [x]) with 1. pose proof (len_nonneg w) as Hn.
+  rewrite rd_ok by (rewrite len_app; change (len [x]) with 1; lia).
+  replace (Z.to_nat (len w + 1 - 1)) with (length w) by (unfold len; lia).
+  rewrite app_nth2 by lia. rewrite Nat.sub_diag. reflexivity.
+Qed.
+
+Lemma info_header_bytes n : bytes (info_header n).
+Proof. unfold info_header. apply bytes_app. split; [apply be8_bytes|]. apply bytes_cons. split; [unfold byte; lia|apply bytes_nil]. Qed.
+
+Lemma len_info_header n : len (info_header n) = 9.
+Proof. reflexivity. Qed.
+
+Section Payload.
+  Variables (n : Z) (c : list Z).
+  Let p := info_header n ++ c.
+
+  Lemma payload_len : len p = 9 + len c.
+  Proof. unfold p. rewrite len_app, len_info_header. reflexivity. Qed.
+
+  Lemma payload_bytes : bytes c -> bytes p.
+  Proof. intros H. unfold p. apply bytes_app. split; [apply info_header_bytes|exact H]. Qed.
+
+  Lemma payload_fc : rd p 8 = Ok 122.
+  Proof.
+    pose proof (len_nonneg c) as Hc. rewrite rd_ok by (rewrite payload_len; lia). reflexivity.
+  Qed.
+
+  Lemma payload_hdr : slice p 0 8 = Ok (be8 n).
+  Proof.
+    pose proof (len_nonneg c) as Hc. rewrite slice_ok by (rewrite ?payload_len; lia). reflexivity.
+  Qed.
+
+  Lemma payload_src : slice p 9 (len p - 9) = Ok c.
+  Proof.
+    pose proof (len_nonneg c) as Hc. rewrite slice_ok by (rewrite ?payload_len; lia).
+    rewrite payload_len. replace (9 + len c - 9) with (len c) by lia.
+    change (skipn (Z.to_nat 9) p) with c. unfold len. rewrite Nat2Z.id. now rewrite firstn_all.
+  Qed.
+End Payload.
+
+(* ---- 3. the general round trip ------------------------------------------------------------------------ *)
+Section Codec.
+  Variable compress : list Z -> list Z.
+  Variable unc : list Z -> Z -> Z -> bool -> res (list Z).
+  Hypothesis compress_bytes : forall d, bytes d -> bytes (compress d).
+  Hypothesis unc_compress : forall d cap nil, bytes d ->
+    (nil = false -> len d <= cap) -> (nil = true -> d = []) ->
+    unc (compress d) (len d) cap nil = Ok d.
+
+  Theorem decode_encode lb d out maxsz :
+    bytes d -> 9 + len (compress d) < M64 / 4 -> len d < M64 ->
+    0 < o_esz out -> (len d) mod (o_esz out) = 0 ->
+    (maxsz <= 0 \/ len d <= maxsz) ->
+    (o_owner out = false -> len d <= o_cnt out * o_esz out < M64) ->
+    sc_decode_with unc (sc_encode_with compress lb d) out maxsz = Ok (len d / o_esz out, d).
+  Proof.
+    intros Hd Hc Hn Hesz Hmod Hmax Hview.
+    pose proof (len_nonneg d) as Hd0. pose proof (len_nonneg (compress d)) as Hc0.
+    unfold sc_encode_with. set (p := info_header (len d) ++ compress d).
+    assert (Hlp : len p = 9 + len (compress d)) by apply payload_len.
+    assert (Hbp : bytes p) by (apply payload_bytes, compress_bytes, Hd).
+    assert (Hp : 0 < len p < M64 / 4) by lia.
+    destruct (dec_lines_armor lb p Hbp Hp) as [G D]. cbv zeta in G, D.
+    unfold sc_decode_with. cbv zeta.
+    pose proof (armor_len lb p Hbp Hp) as HE.
+    destruct (Z.eqb_spec (len (armor lb p)) 0) as [E0|_]; [exfalso; lia|].
+    assert (Hlast : rd (armor lb p) (len (armor lb p) - 1) = Ok 0).
+    { rewrite (armor_spec lb p Hbp Hp). apply rd_last. }
+    rewrite Hlast. cbn [bind]. change (negb (0 =? 0)) with false. cbv iota.
+    rewrite G, D. cbn [bind].
+    destruct (Z.ltb_spec (len p) 9); [lia|].
+    unfold p at 1. rewrite payload_fc. cbn [bind]. change (negb (122 =? 122)) with false. cbv iota.
+    unfold p at 1. rewrite payload_hdr. cbn [bind].
+    rewrite be_value_be8 by lia.
+    rewrite Hmod. change (negb (0 =? 0)) with false. cbv iota.
+    assert (Hm : (0 <? maxsz) && (maxsz <? len d) = false).
+    { destruct (Z.ltb_spec 0 maxsz); destruct (Z.ltb_spec maxsz (len d)); cbn [andb]; auto; lia. }
+    rewrite Hm.
+    assert (Hv : negb (o_owner out) && (u64 (o_cnt out * o_esz out) <? len d) = false).
+    { destruct (o_owner out); [reflexivity|]. cbn [negb andb]. specialize (Hview eq_refl).
+      rewrite u64_id by lia. apply Z.ltb_ge. lia. }
+    rewrite Hv.
+    rewrite (u64_id (len p - 9)) by (unfold M64 in *; lia).
+    unfold p at 1 2. rewrite payload_src. cbn [bind].
+    rewrite unc_compress; [reflexivity|exact Hd| |].
+    - intros Hnil. destruct (o_owner out); [lia|]. specialize (Hview eq_refl). lia.
+    - intros Hnil. apply andb_true_iff in Hnil. destruct Hnil as [_ Hz]. apply Z.eqb_eq in Hz. now apply len_0_nil.
+  Qed.
+End Codec.
+
+(* ---- 4. the build with zlib: deflate / inflate abstract, contract = zlib's documented round trip ------- *)
+Section Zlib.
+  Variable deflate : Z -> list Z -> list Z.                 (* compress2 at a level *)
+  Variable inflate : list Z -> Z -> option (list Z).        (* uncompress into a buffer of the given size *)
+  Hypothesis deflate_bytes : forall l d, bytes d -> bytes (deflate l d).
+  Hypothesis zlib_ok : forall l d, bytes d -> inflate (deflate l d) (len d) = Some d.
+
+  Theorem decode_encode_zlib lvl lb d out maxsz :
+    bytes d -> 9 + len (deflate lvl d) < M64 / 4 -> len d < M64 ->
+    0 < o_esz out -> (len d) mod (o_esz out) = 0 ->
+    (maxsz <= 0 \/ len d <= maxsz) ->
+    (o_owner out = false -> len d <= o_cnt out * o_esz out < M64) ->
+    sc_decode_with (zlib_unc inflate) (sc_encode_with (deflate lvl) lb d) out maxsz = Ok (len d / o_esz out, d).
+  Proof.
+    apply (decode_encode (deflate lvl) (zlib_unc inflate)).
+    - apply deflate_bytes.
+    - intros d0 cap nil Hd0 _ _. unfold zlib_unc. rewrite zlib_ok by assumption.
+      now rewrite Z.eqb_refl.
+  Qed.
+End Zlib.
+
+(* ---- 5. sc_io_decode_info reads the original size and the format character ---------------------------- *)
+Theorem decode_info_encode compress lb d :
+  bytes d -> bytes (compress d) -> len d < M64 -> 9 + len (compress d) < M64 / 4 ->
+  sc_decode_info (sc_encode_with compress lb d) = Ok (len d, 122).
+Proof.
+  intros Hd Hbc Hn Hc.
+  pose proof (len_nonneg d) as Hd0. pose proof (len_nonneg (compress d)) as Hc0.
+  unfold sc_encode_with. set (p := info_header (len d) ++ compress d).
+  assert (Hlp : len p = 9 + len (compress d)) by apply payload_len.
+  assert (Hbp : bytes p) by (apply payload_bytes, Hbc).
+  assert (Hp : 0 < len p < M64 / 4) by lia.
+  pose proof (armor_len lb p Hbp Hp) as HE.
+  pose proof (armor_first12 lb p Hbp ltac:(lia)) as H12.
+  change (firstn 9 p) with (info_header (len d)) in H12.
+  unfold sc_decode_info.
+  destruct (Z.ltb_spec (len (armor lb p)) 12) as [Hlt|_]; [exfalso; lia|].
+  rewrite slice_ok by lia. cbn [bind]. change (Z.to_nat 0) with 0%nat. cbn [skipn].
+  change (Z.to_nat 12) with 12%nat. rewrite H12.
+  destruct (decode_block_refine (rfc4648 (info_header (len d))) (repeat 0 12) d_init)
+    as (lout & pt' & st' & E & L & P & F & _).
+  - rewrite len_rfc4648, len_info_header. change (len (repeat 0 12)) with 12. lia.
+  - cbn [d_init d_step d_plain abs_st] in P, F.
+    rewrite pdec_rfc4648 in P, F by apply info_header_bytes.
+    rewrite len_info_header in P. subst lout.
+    rewrite E. cbn [bind]. change (negb (9 =? 9)) with false. cbv iota.
+    change (len (repeat 0 12)) with 12 in L.
+    assert (H8 : firstn 8 pt' = be8 (len d)).
+    { replace (firstn 8 pt') with (firstn 8 (firstn (Z.to_nat 9) pt')) by (rewrite firstn_firstn; reflexivity).
+      rewrite F. reflexivity. }
+    assert (Hfc : nth 8 pt' 0 = 122).
+    { rewrite <- (nth_firstn' pt' (Z.to_nat 9) 8 0) by (change (Z.to_nat 9) with 9%nat; lia).
+      rewrite F. reflexivity. }
+    rewrite slice_ok by lia. cbn [bind]. change (Z.to_nat 0) with 0%nat. cbn [skipn].
+    change (Z.to_nat 8) with 8%nat. rewrite H8.
+    rewrite rd_ok by lia. cbn [bind]. change (Z.to_nat 8) with 8%nat. rewrite Hfc.
+    rewrite be_value_be8 by lia. reflexivity.
 Qed.
